@@ -32,6 +32,7 @@ static void configure(World& w, const json& beh) {
   }
   w.throwAt = cfg["throwAt"].get<int>(); w.stopIn = cfg["stopIn"].get<int>();
   w.copyThrowAt = beh.value("copyThrowAt", 0L);
+  w.moveThrowAt = beh.value("moveThrowAt", 0L);
   w.rootDestroysOp = beh.value("destroyInCompletion", true);
 }
 
@@ -90,7 +91,7 @@ int main(int argc, char** argv) {
   vrt::install_handlers();
   if (a.has("traits")) {
     json t = json::object();
-    for (auto& [id, tr] : Registry::traits()) t[std::to_string(id)] = {{"blocking", tr.blocking}, {"sends_done", tr.sends_done}};
+    for (auto& [id, tr] : Registry::traits()) t[std::to_string(id)] = {{"blocking", tr.blocking}, {"sends_done", tr.sends_done}, {"affine", tr.affine}};
     std::printf("%s\n", t.dump().c_str());
     return 0;
   }
@@ -117,7 +118,7 @@ int main(int argc, char** argv) {
       live = Track::live.size(); bad = Track::bad;
       vrt::ev("{\"e\":\"End\",\"live\":%zu,\"bad\":%zu,\"rootCompletions\":%zu}", live, bad.size(), w.root.size());
       json rec = {{"x", x}, {"b", beh.value("b", x)}, {"obs", obs}, {"live", live}, {"bad", bad}, {"ctor", Track::ctor}, {"dtor", Track::dtor},
-                  {"copies", w.copyCount}, {"final", obs_json(w)}};
+                  {"copies", w.copyCount}, {"moves", w.moveCount}, {"final", obs_json(w)}};
       std::fprintf(out, "%s\n", rec.dump().c_str());
     }
     ++ran;
